@@ -4239,3 +4239,25 @@ def default_same_operand(r: R, chk, qual: str, rule="DEFAULT-SAME-OPERAND", floo
                func=qual, construct=f"default of {x} taken from the other operand")
     chk.floor(rule, f"defaults under `is None` tests in {qual}", n, floor)
     return n
+
+
+# ---------------------------------------------------------------------------------------------------------
+# PARAM-KEPT: the span lookup decides on the caller's parameter itself
+def param_kept(r: R, chk, quals: List[str], rule="PARAM-KEPT"):
+    """The span of u is k with U[k] <= u < U[k+1], decided on u itself: the callers compute the local coordinate from the same u.  A
+    lookup that first replaces u by something else (a knot it is "close" to) picks the piece on the other side of the knot for a
+    parameter just below it, while the local coordinate still comes from the original u — the wrong polynomial piece is evaluated."""
+    n = 0
+    for q in quals:
+        fi = r.prog.func(q)
+        p = next((p_ for p_ in fi.params if p_ not in ("self", "cls")), None)
+        if p is None:
+            continue
+        n += 1
+        rebinds = [a for a in ast.walk(fi.node) if (isinstance(a, ast.Assign) and any(p in _target_names(t) for t in a.targets)) or (isinstance(a, ast.AugAssign) and p in _target_names(a.target)) or (isinstance(a, ast.For) and p in _target_names(a.target))]
+        ok = not rebinds
+        chk.ob(rule, f"{q}: `{p}` is looked up as the caller gave it", ok, loc=f"{fi.module}.py:{(rebinds[0] if rebinds else fi.node).lineno}",
+               detail="" if ok else f"{q}: `{seg(rebinds[0], 40)}` replaces the parameter before the comparison with the knots: a parameter within that closeness below an interior knot is given the span to the right of the knot while the evaluation computes its local coordinate from the original value — the polynomial piece of the wrong side is evaluated (a jump at a knot of full multiplicity is crossed early)",
+               func=q, construct=f"parameter {p} rebound before the lookup")
+    chk.floor(rule, "single-node lookups examined", n, len(quals))
+    return n
